@@ -19,6 +19,9 @@ def units():
         us.append(Unit("geom_center_d%02d" % d, P + "geom_center_d%02d" % d, ["Layer::center_of_projected_cell", "Layer::decode_hash", "rotate45_scale2", "Layer::shift_from_small_cell_center_to_base_cell_center", "Layer::scale_to_proj_dividing_by_nside", "compute_base_cell_center_offsets_in_8x3_grid", "apply_base_cell_center_offsets", "Layer::check_hash"],
                        "depth %d, all cells: projected centre == integer geometry exactly; x in [0,8), y in [-2,2]" % d, timeout=900, level="B", bound="depth %d" % d))
         us.append(Unit("geom_panic_d%02d" % d, P + "geom_panic_d%02d" % d, ["Layer::center_of_projected_cell", "Layer::check_hash"], "depth %d: cell number >= 12*4^d rejected by a panic" % d, kind="must_panic", allowed_fail=[r"Wrong hash value: too large"], tiers=both if d in (0, 3, 29) else th, timeout=600))
+        us.append(Unit("geom_srsfin_d%02d" % d, P + "geom_srsfin_d%02d" % d, ["Layer::shift_rotate_scale", "Layer::new (time_half_nside)"], "depth %d, every point of the projected domain: the rotated, scaled coordinates are finite and within [0, 5.5 nside] (this obligation refutes the original code at depth 0: -inf when a coordinate is exactly 0, finding D19)" % d, timeout=600, level="B", bound="depth %d" % d))
+        if d in (0, 1, 29):
+            us.append(Unit("geom_srs_search_d%02d" % d, P + "geom_srs_d%02d" % d, ["Layer::shift_rotate_scale"], "depth %d: shift_rotate_scale == (u, v) * nside/2 exactly; time-bounded refutation search" % d, kind="search", tiers=th, timeout=1200))
         if d in (0, 3, 29):
             us.append(Unit("geom_hdxdy_search_d%02d" % d, P + "geom_hdxdy_d%02d" % d, ["Layer::hash_with_dxdy", "Layer::shift_rotate_scale", "discretize", "Layer::depth0_bits", "Layer::build_hash", "(contract stub) proj"], "depth %d: hash_with_dxdy cell < 12*4^d, offsets in [0,1], point in the base cell of the returned cell; time-bounded refutation search" % d, kind="search", tiers=th, timeout=5400, extra=dict(no_native=True)))
     return us
